@@ -262,6 +262,51 @@ func runC06(c *core.Ctx) {
 		c06MustFail(cs, "all-or-nothing/empty", []byte{}, "empty datagram")
 		c06MustFail(cs, "all-or-nothing/empty", nil, "nil datagram")
 	})
+	// frames with the maximum length field 0xFFFF (262144 octets), alone and between neighbours
+	c.Section("max-frame", c.N(12, 120), func(cs *core.Case) {
+		r := cs.R
+		n := 262144
+		b := make([]byte, n)
+		kind := "raw"
+		switch cs.Idx % 4 {
+		case 0:
+			b[0], b[1] = 0x80|byte(r.Intn(32)), byte(r.Pick(199, 208, 192))
+			copy(b[4:], r.Bytes(256))
+		case 1:
+			kind = "APP"
+			b[0], b[1] = 0x80|byte(r.Intn(32)), 204
+			copy(b[4:], r.Bytes(256))
+		case 2:
+			kind = "SR"
+			b[0], b[1] = 0x80, 200
+			copy(b[4:], r.Bytes(256))
+		default:
+			kind = "XR"
+			b[0], b[1] = 0x80, 207
+			b[8] = 99
+			bl := (n-8)/4 - 1
+			b[10], b[11] = byte(bl>>8), byte(bl)
+		}
+		b[2], b[3] = 0xFF, 0xFF
+		pre := []byte{0x81, 206, 0, 2, 1, 2, 3, 4, 5, 6, 7, 8}
+		for _, in := range [][]byte{b, append(append(cloneBytes(pre), b...), pre...)} {
+			ps, err, pan := gUnmarshal(cloneBytes(in))
+			cs.Eval(1)
+			cs.Distinct(core.Digest([]byte("max"), in[:300], []byte{byte(len(in) >> 8)}))
+			cs.Count("max-frame/" + kind)
+			if pan != "" {
+				cs.Fail("panic/rtcp.Unmarshal", core.W{"input_hex": mon.Hex(in, 64), "input_len": len(in), "panic": pan})
+				return
+			}
+			want := 1
+			if len(in) > n {
+				want = 3
+			}
+			cs.Check(err == nil && len(ps) == want, "exactly-once/max-length-frame/"+kind, func() core.W {
+				return core.W{"input_hex": mon.Hex(in, 64), "input_len": len(in), "error": errStr(err), "packets": len(ps), "expected_packets": want}
+			})
+		}
+	})
 	for _, src := range []string{"reference", "own-marshal"} {
 		src := src
 		n := c.N(150000, 4000000)
